@@ -1616,6 +1616,97 @@ pub fn build_frac_liga(f: u16, i: u16, slash: u16, digits: &[u16], variant: u64)
     t
 }
 
+/// See [`Surgery::InstallMarkLig`]: (GDEF, GPOS).
+pub fn build_mark_lig(lig: u16, mark: u16, components: u8) -> (Vec<u8>, Vec<u8>) {
+    let p16 = |v: &mut Vec<u8>, x: u16| v.extend_from_slice(&x.to_be_bytes());
+    // GDEF 1.0 with a glyph class definition (format 2, ranges sorted by glyph id)
+    let mut gdef = Vec::new();
+    p16(&mut gdef, 1);
+    p16(&mut gdef, 0);
+    p16(&mut gdef, 12);
+    p16(&mut gdef, 0);
+    p16(&mut gdef, 0);
+    p16(&mut gdef, 0);
+    let mut ranges = vec![(lig, 2u16), (mark, 3u16)];
+    ranges.sort_unstable();
+    p16(&mut gdef, 2);
+    p16(&mut gdef, ranges.len() as u16);
+    for (g, c) in ranges {
+        p16(&mut gdef, g);
+        p16(&mut gdef, g);
+        p16(&mut gdef, c);
+    }
+    // GPOS
+    let c = usize::from(components.clamp(1, 3));
+    let mut t = Vec::new();
+    p16(&mut t, 1);
+    p16(&mut t, 0);
+    p16(&mut t, 10);
+    let script_list_len = 2 + 2 * 6 + 2 * (4 + 6 + 2);
+    p16(&mut t, (10 + script_list_len) as u16);
+    let feature_list_len = 2 + 6 + 6;
+    p16(&mut t, (10 + script_list_len + feature_list_len) as u16);
+    p16(&mut t, 2);
+    t.extend_from_slice(b"DFLT");
+    p16(&mut t, 14);
+    t.extend_from_slice(b"latn");
+    p16(&mut t, 14 + 12);
+    for _ in 0..2 {
+        p16(&mut t, 4);
+        p16(&mut t, 0);
+        p16(&mut t, 0);
+        p16(&mut t, 0xFFFF);
+        p16(&mut t, 1);
+        p16(&mut t, 0);
+    }
+    p16(&mut t, 1);
+    t.extend_from_slice(b"mark");
+    p16(&mut t, 8);
+    p16(&mut t, 0);
+    p16(&mut t, 1);
+    p16(&mut t, 0);
+    // LookupList: one lookup of type 5
+    p16(&mut t, 1);
+    p16(&mut t, 4);
+    p16(&mut t, 5);
+    p16(&mut t, 0);
+    p16(&mut t, 1);
+    p16(&mut t, 8);
+    // MarkLigPos format 1
+    p16(&mut t, 1);
+    p16(&mut t, 12); // mark coverage
+    p16(&mut t, 18); // ligature coverage
+    p16(&mut t, 1); // mark class count
+    p16(&mut t, 24); // mark array
+    p16(&mut t, 36); // ligature array
+    p16(&mut t, 1);
+    p16(&mut t, 1);
+    p16(&mut t, mark);
+    p16(&mut t, 1);
+    p16(&mut t, 1);
+    p16(&mut t, lig);
+    // MarkArray: one record (class 0), anchor format 1
+    p16(&mut t, 1);
+    p16(&mut t, 0);
+    p16(&mut t, 6);
+    p16(&mut t, 1);
+    p16(&mut t, 10);
+    p16(&mut t, 20);
+    // LigatureArray: one LigatureAttach
+    p16(&mut t, 1);
+    p16(&mut t, 4);
+    p16(&mut t, c as u16);
+    for k in 0..c {
+        p16(&mut t, (2 + 2 * c + 6 * k) as u16);
+    }
+    for k in 0..c {
+        p16(&mut t, 1);
+        p16(&mut t, (100 * (k + 1)) as u16);
+        p16(&mut t, 300);
+    }
+    (gdef, t)
+}
+
 fn num_glyphs(disk: &Disk) -> Result<u16, String> {
     disk.tables
         .get(&tag_from_str("maxp"))
@@ -1837,6 +1928,22 @@ pub fn apply(disk: &mut Disk, s: &Surgery) -> Result<(), String> {
                 tag_from_str("GSUB"),
                 Rc::new(build_frac_liga(glyphs[0], glyphs[1], glyphs[2], &glyphs[3..], *variant)),
             );
+            Ok(())
+        }
+        Surgery::InstallMarkLig { glyphs, mark, components, variant } => {
+            let n = num_glyphs(disk)?;
+            if glyphs.len() != 13 || glyphs.iter().any(|g| *g == 0 || *g >= n) || *mark == 0 || *mark >= n || glyphs.contains(mark) {
+                return Err("surgery: mark/ligature needs f, i, slash, ten digits and a distinct mark".into());
+            }
+            let lig = if *variant % 2 == 0 { glyphs[0] } else { glyphs[1] };
+            let (gdef, gpos) = build_mark_lig(lig, *mark, *components);
+            disk.tables.insert(
+                tag_from_str("GSUB"),
+                Rc::new(build_frac_liga(glyphs[0], glyphs[1], glyphs[2], &glyphs[3..], *variant)),
+            );
+            disk.tables.insert(tag_from_str("GDEF"), Rc::new(gdef));
+            disk.tables.insert(tag_from_str("GPOS"), Rc::new(gpos));
+            disk.tables.remove(&tag_from_str("kern"));
             Ok(())
         }
         Surgery::PostFormat { v25, variant } => {
